@@ -25,12 +25,15 @@ VECTOR_KEYS = {"pipeline.charge_collection.e1.arguments.vec"}
 NAME_KEY = "pipeline.charge_collection.e1.arguments.name"
 NAME_DEFAULT = "x"
 NAMES = ["b", "a", "zz", "img_01.fits", "Uniform"]
+# an entry inside a mapping-valued argument (opt-in: spaces(with_nested=True))
+NESTED_KEY = "pipeline.charge_collection.e1.arguments.opts.k"
+NESTED_DEFAULT = 0.0
 
 
 def echo_pipeline(extra_groups=None):
     groups = {
         "charge_collection": [{"name": "e1", "func": "vprobes.models.echo", "enabled": True,
-                               "arguments": {"level": DEFAULTS[KEYS[0]], "vec": list(DEFAULTS[KEYS[1]]), "other": DEFAULTS[KEYS[2]], "tag": "e1", "name": NAME_DEFAULT}}],
+                               "arguments": {"level": DEFAULTS[KEYS[0]], "vec": list(DEFAULTS[KEYS[1]]), "other": DEFAULTS[KEYS[2]], "tag": "e1", "name": NAME_DEFAULT, "opts": {"k": NESTED_DEFAULT, "z": 1}}}],
         "charge_measurement": [{"name": "e2", "func": "vprobes.models.echo", "enabled": True,
                                 "arguments": {"level": DEFAULTS[KEYS[3]], "vec": [1.0, 1.0], "other": 0.0, "tag": "e2"}}],
     }
@@ -41,6 +44,8 @@ def echo_pipeline(extra_groups=None):
 
 
 def _values_for(key):
+    if key == NESTED_KEY:
+        return st.lists(st.sampled_from([1.0, 2.0, 3.0, 4.0]), min_size=1, max_size=3, unique=True)
     if key == NAME_KEY:
         return st.lists(st.sampled_from(NAMES), min_size=1, max_size=3, unique=True)
     if key in VECTOR_KEYS:
@@ -55,10 +60,12 @@ def _values_for(key):
 
 
 @st.composite
-def spaces(draw, modes=("product", "sequential", "custom"), max_params=4, allow_k1=False, max_runs=24, with_names=False):
+def spaces(draw, modes=("product", "sequential", "custom"), max_params=4, allow_k1=False, max_runs=24, with_names=False, with_nested=False):
     mode = draw(st.sampled_from(list(modes)))
     dask = draw(st.booleans())
-    pool = KEYS + [NAME_KEY] if with_names and mode != "custom" else KEYS  # (a custom table holds numbers only)
+    pool = KEYS + [NAME_KEY] if with_names and mode != "custom" else list(KEYS)  # (a custom table holds numbers only)
+    if with_nested:
+        pool = pool + [NESTED_KEY]
     keys = draw(st.lists(st.sampled_from(pool), min_size=1, max_size=max_params, unique=True))
     params = []
     for k in keys:
@@ -156,19 +163,20 @@ def reference_runs(case) -> list[dict]:
 def full_state(run: dict) -> dict:
     s = {k: (list(v) if isinstance(v, list) else v) for k, v in DEFAULTS.items()}
     s[NAME_KEY] = NAME_DEFAULT
+    s[NESTED_KEY] = NESTED_DEFAULT
     s.update({k: (list(v) if isinstance(v, (list, tuple)) else v) for k, v in run.items()})
     return s
 
 
 def state_tuple(s: dict) -> tuple:
-    return tuple((k, tuple(float(x) for x in s[k]) if isinstance(s[k], (list, tuple)) else float(s[k])) for k in KEYS) + ((NAME_KEY, str(s.get(NAME_KEY, NAME_DEFAULT))),)
+    return tuple((k, tuple(float(x) for x in s[k]) if isinstance(s[k], (list, tuple)) else float(s[k])) for k in KEYS) + ((NAME_KEY, str(s.get(NAME_KEY, NAME_DEFAULT))), (NESTED_KEY, float(s.get(NESTED_KEY, NESTED_DEFAULT))))
 
 
 def expected_pixel(s: dict) -> float:
-    from vprobes.models import encode, name_code
+    from vprobes.models import encode, name_code, nested_code
 
     qe, t = s[KEYS[4]], s[KEYS[5]]
-    return encode(s[KEYS[0]], s[KEYS[1]], s[KEYS[2]], qe, t) + name_code(s.get(NAME_KEY, NAME_DEFAULT)) + encode(s[KEYS[3]], [1.0, 1.0], 0.0, qe, t)
+    return encode(s[KEYS[0]], s[KEYS[1]], s[KEYS[2]], qe, t) + name_code(s.get(NAME_KEY, NAME_DEFAULT)) + nested_code(s.get(NESTED_KEY, NESTED_DEFAULT)) + encode(s[KEYS[3]], [1.0, 1.0], 0.0, qe, t)
 
 
 def applied_states(echo_log) -> list[tuple]:
@@ -177,7 +185,7 @@ def applied_states(echo_log) -> list[tuple]:
     cur = None
     for e in echo_log:
         if e["tag"] == "e1":
-            cur = {KEYS[0]: e["level"], KEYS[1]: e["vec"], KEYS[2]: e["other"], KEYS[4]: e["qe"], KEYS[5]: e["temperature"], NAME_KEY: e["name"]}
+            cur = {KEYS[0]: e["level"], KEYS[1]: e["vec"], KEYS[2]: e["other"], KEYS[4]: e["qe"], KEYS[5]: e["temperature"], NAME_KEY: e["name"], NESTED_KEY: e.get("k", 0.0)}
         elif e["tag"] == "e2" and cur is not None:
             cur[KEYS[3]] = e["level"]
             out.append(state_tuple(cur))
